@@ -2,6 +2,7 @@ CHECKS["C02"] = dict(
     level="model_checking",
     rule="every configuration of the lattice (rule x type x dims x depth x weights x limits x transform x alpha/beta) is a state; "
          "transitions update/load/merge; in every state every monomial of getGlobalPolynomialSpace(false) (every Fourier mode) is integrated and compared with float128 closed-form moments; "
+         "the same oracle with values loaded and a refinement pending; exotic quadrature rules (shift 0, positive, negative); "
          "distinct = distinct (rule, point set) pairs",
     assumptions=COMMON_ASSUME + ["monomials with an exponent above 36 are skipped (counted in 'skipped')"],
     jobs=[dict(harness="scan_exact", variant="asan", args=["--prop", "C02"], quick=["--tier", "quick"], thorough=["--tier", "thorough"],
@@ -10,7 +11,9 @@ CHECKS["C02"] = dict(
 CHECKS["C03"] = dict(
     level="model_checking",
     rule="same lattice as C02 plus local-polynomial and wavelet grids; in every state every member of the declared interpolation space is reproduced by the "
-         "interpolation weights and by evaluate() after loading nodal values, at interior probes, domain corners and a node",
+         "interpolation weights and by evaluate() after loading nodal values (as an overwriting reload), at interior probes, domain corners, a node and points next to nodes "
+         "(node + {1e-11, -1e-9, 1e-7} x width); transforms: canonical, a wide box, a narrow box far from the origin, boxes whose corner maps to 1 + 2e-16; tolerance scaled by the conditioning "
+         "of the state (sum |w v|, Lebesgue sum x degree x round-off of the domain map); deep 1-D units (Fourier 3^10 points, local polynomial 2^15 points) for the O(N) weight routines",
     assumptions=COMMON_ASSUME + ["clenshaw-curtis-zero: a listed degree k stands for the zero-boundary polynomial (1-x^2)x^(k-2); degrees < 2 skipped"],
     jobs=[dict(harness="scan_exact", variant="asan", args=["--prop", "C03"], quick=["--tier", "quick"], thorough=["--tier", "thorough"],
                deadline_quick=240, deadline_thorough=1200)],
